@@ -142,6 +142,35 @@ def check_term(t, r=None):
                 problems.append(('not equivalent', where + ': ' + json.dumps(cex, default=str)))
             if r is not None:
                 r.outcomes[('moved-all' if f1 == ('lit', 'True', True) else 'kept-all' if f2 == ('lit', 'True', True) else 'split')] += 1
+        # E4 depth 2: objects derived from the (now queried and refactored) one must be judged on their own
+        if getattr(check_term, 'derive', False) and mentions(t_in, 'A'):
+            from hpl.rewrite import replace_this_with_var, replace_var_with_this
+
+            for dlabel, make, alias in (
+                ('replace_var_with_this(A)', lambda: replace_var_with_this(obj, 'A'), 'A'),       # the copy no longer mentions A
+                ('replace_this_with_var(C)', lambda: replace_this_with_var(obj, 'C'), 'C'),       # the copy now mentions C
+            ):
+                try:
+                    d = make()
+                except Exception:  # noqa: BLE001
+                    continue
+                if r is not None:
+                    r.count('transitions', 2)
+                ld = _cond(absyn.lift(d))
+                try:
+                    res = refactor_reference(d, alias)
+                    g1, g2 = _cond(absyn.lift(res[0])), _cond(absyn.lift(res[1]))
+                except Exception as e:  # noqa: BLE001
+                    problems.append(('raised ' + type(e).__name__ + ' (object derived from a refactored one)', f'refactor_reference({dlabel} of {kind} {text}, {alias}): {str(e)[:160]}'))
+                    continue
+                where = f'refactor_reference({dlabel} of {kind} {text}, {alias}) = ({_txt(g1)} ; {_txt(g2)})'
+                if mentions(g1, alias):
+                    problems.append(('first half still mentions the alias (object derived from a refactored one)', where))
+                if not mentions(ld, alias) and g2 != ('lit', 'True', True):
+                    problems.append(('alias absent but second half is not True (object derived from a refactored one)', where))
+                cex = equivalent(ld, conj([g1, g2]), boolfrag.GRID, r)
+                if cex:
+                    problems.append(('not equivalent (object derived from a refactored one)', where + ': ' + json.dumps(cex, default=str)))
     return problems
 
 
@@ -176,7 +205,9 @@ def run(unit):
             continue
         r.count('evaluations')
         r.count('states')
+        check_term.derive = n <= 4
         probs = [(t, pk, d) for pk, d in check_term(t, r)]
+        check_term.derive = False
         r.count('validated')
         if mentions(t, 'A'):
             r.count('nontrivial')
@@ -203,13 +234,14 @@ def run(unit):
 def replay(w):
     from hplmc.checks.c08 import _detuple
 
+    check_term.derive = True
     return [{'sig': k, 'detail': d} for k, d in check_term(_detuple(w['term']), None)]
 
 
 def describe(tier):
     b = bounds(tier)
     return {
-        'rule': f"every boolean term over atoms p q r (x > 0) (y = 1) True False @A.p (@A.x > 0) @B.p with not/and/or/implies/iff and forall/exists @i over xs, {{0,1}}, [0 to 1], @A.xs (bodies may use (@i > 0), (@A.x > @i)) with <= {b['nodes']} nodes; every term with <= 4 nodes that mentions @A also under chains of 2, 3 and 4 negations; each refactored for aliases A, B and the absent C, as expression and as predicate; x every valuation (truth tables, numbers -1 0 1, arrays [] [0] [0,1]). nontrivial = terms mentioning @A.",
+        'rule': f"every boolean term over atoms p q r (x > 0) (y = 1) True False @A.p (@A.x > 0) @B.p with not/and/or/implies/iff and forall/exists @i over xs, {{0,1}}, [0 to 1], @A.xs (bodies may use (@i > 0), (@A.x > @i)) with <= {b['nodes']} nodes; every term with <= 4 nodes that mentions @A also under chains of 2, 3 and 4 negations; for terms with <= 4 nodes the copies made by replace_var_with_this(A) / replace_this_with_var(C) of the already refactored object are refactored too (histories of depth 2); each refactored for aliases A, B and the absent C, as expression and as predicate; x every valuation (truth tables, numbers -1 0 1, arrays [] [0] [0,1]). nontrivial = terms mentioning @A.",
         'bounds': b,
         'exhaustive': True,
         'assumptions': ['reference evaluator; strict connectives'],
